@@ -26,7 +26,7 @@ Expand(p, w, i) == IF i > Len(p) THEN <<>>
 
 \* In a combined diff the prefix columns are always shown; inside a conflict region they are removed (a
 \* kept marker is then the comparison's own '-' or '+').
-ShowsPre(line, cfg) == HunkC(line.c) \in BodyC /\ (cfg.keep \/ line.comb)
+ShowsPre(line, cfg) == (HunkC(line.c) \in BodyC \/ line.c = "subp") /\ (cfg.keep \/ line.comb)     \* ("subp": an added submodule's line is an added line)
 WantVisLen(line, cfg) == (IF ShowsPre(line, cfg) THEN Len(line.pre) ELSE IF line.c = "cin" /\ cfg.keep THEN 1 ELSE 0) + Len(line.pay)
 WantVis(line, cfg) == (IF ShowsPre(line, cfg) THEN line.pre ELSE <<>>) \o Expand(line.pay, cfg.tabs, 1)
 WantVisAs(line, cfg, tag) ==
@@ -34,7 +34,7 @@ WantVisAs(line, cfg, tag) ==
   ELSE WantVis(line, cfg)
 
 \* The implementation-shaped model, run on the same history (drift report, never a verdict)
-IS(b) == INSTANCE Impl_Stream WITH Modes <- {}, Buf <- b, ColorOnly <- FALSE, Fixes <- {"D1", "D14", "D2", "D18", "D19", "D20", "D21", "D23", "D24"}
+IS(b) == INSTANCE Impl_Stream WITH Modes <- {}, Buf <- b, ColorOnly <- FALSE, Fixes <- {"D1", "D14", "D2", "D18", "D19", "D20", "D21", "D23", "D24", "D25"}
 RECURSIVE ImplRun(_, _, _, _)
 ImplRun(b, h, st, k) == IF k > Len(h) THEN st ELSE ImplRun(b, h, IS(b)!Step(st, k, h[k]), k + 1)
 ImplRows(e) == IS(e.cfg.buf)!Finish(ImplRun(e.cfg.buf, e.lines, IS(e.cfg.buf)!InitS, 1)).w
@@ -66,6 +66,7 @@ RowMatches(h, cfg, w, g) ==
     [] w.t \in BodyC   -> /\ g.t = w.t \/ (g.t = "blank" /\ WantVisAs(line, cfg, w.t) = <<>>)
                           /\ g.vis = WantVisAs(line, cfg, w.t)
     [] w.t = "subshort" -> g.vis = SubSeq(h[w.k - 1].pay, 1, 12) \o <<46, 46>> \o SubSeq(line.pay, 1, 12)
+    [] w.t = "subgone" -> g.vis = SubSeq(line.pay, 1, 12) \o <<46, 46>>
     [] w.t = "bar"     -> g.t = "deco"
     [] w.t = "mergeHdr" -> g.t = "mergeHdr"
     [] w.t = "hunkHdr" -> /\ g.t = "hunkHdr" /\ g.frag = w.k
@@ -125,7 +126,7 @@ Drifts(e) ==
            \* (rules are decoration rows on the observed side; passed-through text may carry colours of its own)
            p2 == SelectSeq(pr, LAMBDA r : ~BlankSource(e, r) /\ r.t # "bar")
            o2 == SelectSeq(e.rows, LAMBDA r : r.t \notin {"blank", "deco"} /\ ~(r.t \in BodyC /\ r.vis = <<>>))
-           Norm(t) == IF t \in {"styled", "raw", "rawopt"} THEN "raw" ELSE t
+           Norm(t) == IF t \in {"styled", "raw", "rawopt"} THEN "raw" ELSE IF t = "subgone" THEN "minus" ELSE t   \* (the lone old commit is painted in the minus style)
        IN [i \in DOMAIN p2 |-> Norm(p2[i].t)] # [i \in DOMAIN o2 |-> Norm(o2[i].t)]
 
 Init == l = 1 /\ failed = <<>> /\ drift = <<>>
